@@ -246,7 +246,8 @@ def inline_view(fns, known):
     async_helpers = {}
     for np, g in unknown.items():
         c = by_path.get(g['path'] + '::{closure#0}')
-        if c is not None and c.get('coroutine') and 'Async' in str(c.get('coroutine')):
+        # (the body of an `async fn` — `Desugared(Async, Fn)` — not an `async move { .. }` block a plain helper hands to spawn)
+        if c is not None and c.get('coroutine') and 'Async' in str(c.get('coroutine')) and 'Block' not in str(c.get('coroutine')):
             async_helpers[c['path']] = (g, c)
     done_c = {}
 
